@@ -131,7 +131,8 @@ EndEv ==
           <<"EveryCallReturns", ~crashed => \A r \in hrets : r.returned>>,
           \* C01: every participant of an orchestrated signing session among an authorised set obtains a valid signature
           <<"EveryParticipantGotValidSig", (~Faulty /\ cfg.scheme = "eddsa" /\ ~crashed) =>
-                 (Cardinality(sgrets) = cfg.n /\ \A x \in sgrets : x.returned /\ x.ok /\ x.verified)>>,
+                 (Cardinality(sgrets) = (IF "nsigners" \in DOMAIN cfg /\ cfg.nsigners > 0 THEN cfg.nsigners ELSE cfg.n)
+                  /\ \A x \in sgrets : x.returned /\ x.ok /\ x.verified)>>,
           \* C05: a party that completes accepted, from every other participant, a key that matches the FIRST commitment it was
           \* handed from that participant (commitments are binding: nobody can choose its key after seeing the others')
           <<"CommitmentBinding", \A r \in oks : r.node \in DOMAIN first =>
